@@ -6,20 +6,34 @@ Import ListNotations.
 Open Scope string_scope.
 Open Scope list_scope.
 
+(* `if not isinstance(dicts.resolve(body, path, value), Mapping): dicts.ensure(body, path, {})`
+   dicts.resolve with a default returns the default (here `value`, a mapping) for an absent key or a
+   non-mapping on the way; only a value PRESENT at the path and not a mapping (null included) is replaced.
+   ensure(body, (), {}) raises ValueError: visible as ErrValue when the root itself is not a mapping. *)
+Definition overwrite_nonmapping (body : json) (p : path) : res json :=
+  match resolve body p with
+  | Some (JObj _) => Ok body
+  | Some _ => ensure body p (JObj [])
+  | None => Ok body
+  end.
+
 (* Patch._apply_patch(body, path, value), the mutated body returned as a value:
      case None                  -> dicts.remove(body, path)
-     case Mapping               -> for key, val in value.items(): self._apply_patch(body, path + (key,), val)
+     case Mapping               -> if not isinstance(dicts.resolve(body, path, value), Mapping):
+                                       dicts.ensure(body, path, {})
+                                   for key, val in value.items(): self._apply_patch(body, path + (key,), val)
      case _                     -> dicts.ensure(body, path, value)
    The first exception aborts everything (nothing catches it up to serve_admission_request). *)
 Fixpoint apply_at (body : json) (p : path) (value : json) {struct value} : res json :=
   match value with
   | JNull => remove body p
   | JObj kvs =>
-      (fix go (kvs : list (string * json)) (body : json) : res json :=
-         match kvs with
-         | [] => Ok body
-         | (k, v) :: rest => bind (apply_at body (p ++ [k]) v) (go rest)
-         end) kvs body
+      bind (overwrite_nonmapping body p)
+        ((fix go (kvs : list (string * json)) (body : json) : res json :=
+            match kvs with
+            | [] => Ok body
+            | (k, v) :: rest => bind (apply_at body (p ++ [k]) v) (go rest)
+            end) kvs)
   | _ => ensure body p value
   end.
 
@@ -49,31 +63,6 @@ Fixpoint prune (j : json) : json :=
                    if is_empty_obj v' then go rest else (k, v') :: go rest
                end) kvs)
   | _ => j
-  end.
-
-(* The guard of the fidelity theorem: no mapping-valued node of the patch sits on a non-mapping
-   value of the body (the root included). *)
-Definition paths_ok (patch body : json) : Prop :=
-  forall q o, resolve patch q = Some (JObj o) -> leaf_at body q = None.
-
-(* the same, computable *)
-Fixpoint paths_okb (patch body : json) {struct patch} : bool :=
-  match patch with
-  | JObj pkvs =>
-      match body with
-      | JObj bkvs =>
-          (fix go (pkvs : list (string * json)) : bool :=
-             match pkvs with
-             | [] => true
-             | (k, v) :: rest =>
-                 match lookup k bkvs with
-                 | Some bv => paths_okb v bv
-                 | None => true
-                 end && go rest
-             end) pkvs
-      | _ => false
-      end
-  | _ => true
   end.
 
 (* ---------- transformation functions (patch.fns) ---------- *)
